@@ -56,6 +56,7 @@ var c02Operands = []opnd{
 	{"int-max", func() *gt.T { return gt.Int(-math.MaxInt64) }, int64(-math.MaxInt64), true},
 	{"intmin", func() *gt.T { return gt.Paren(gt.Bin("-", gt.Int(-math.MaxInt64), gt.Int(1))) }, int64(math.MinInt64), true},
 	{"float0", func() *gt.T { return gt.Float(0) }, float64(0), true},
+	{"float-0", func() *gt.T { return gt.Float(math.Copysign(0, -1)) }, math.Copysign(0, -1), true},
 	{"float0.5", func() *gt.T { return gt.Float(0.5) }, float64(0.5), true},
 	{"float-0.5", func() *gt.T { return gt.Float(-0.5) }, float64(-0.5), true},
 	{"float1", func() *gt.T { return gt.Float(1) }, float64(1), true},
